@@ -29,7 +29,18 @@ type ScalarCase struct {
 	// listmap: one flag per list element, true = that element lacks our key
 	// (nil = the list holds the same map twice, present or missing per Missing)
 	ListMissing []bool `json:"list_missing,omitempty"`
-	noDup       bool
+	// rule names defined for this call only (VVar/VMap/VUrl.SetValidFn, MapFn, StructForFns)
+	CallFns []string `json:"callfns,omitempty"`
+	noDup   bool
+}
+
+func (c *ScalarCase) callFn(name string) bool {
+	for _, n := range c.CallFns {
+		if n == name {
+			return true
+		}
+	}
+	return false
 }
 
 // Carriers lists every way a scalar can be presented.
@@ -60,6 +71,12 @@ func (c *ScalarCase) carrierOK() bool {
 		s := c.Val.S
 		if c.Val.SB != nil {
 			return false
+		}
+		if c.Carrier == "urlenc" {
+			// in the wholly percent-encoded form '#' and '?' inside a value are unambiguous
+			// (%23, %3F); '&', '=', '%' and '+' stay excluded: the walker decodes the whole
+			// URL before it splits, so such values cannot be carried (DESIGN 5, C18 X)
+			return urlSafe(strings.NewReplacer("#", "", "?", "").Replace(s))
 		}
 		return urlSafe(s)
 	case "map", "mapiface", "listmap":
@@ -104,12 +121,32 @@ func (c *ScalarCase) prepare() func() error {
 	case "var":
 		src := v.Interface()
 		rs := append([]string(nil), c.Rules...)
+		if len(c.CallFns) > 0 {
+			fns := append([]string(nil), c.CallFns...)
+			return func() error {
+				vv := valid.NewVVar().SetRules(rs...)
+				for _, n := range fns {
+					vv.SetValidFn(n, perCallFn(n))
+				}
+				return vv.Valid(src)
+			}
+		}
 		return func() error { return valid.Var(src, rs...) }
 	case "tag":
 		st := desc.T{K: "struct", Fields: []desc.F{{Name: "K", T: c.T, Tags: map[string]string{"valid": rules}}}}
 		sv := reflect.New(desc.Type(st))
 		sv.Elem().Field(0).Set(v)
 		src := sv.Interface()
+		if len(c.CallFns) > 0 {
+			fns := append([]string(nil), c.CallFns...)
+			return func() error {
+				fm := valid.Name2FnMap{}
+				for _, n := range fns {
+					fm[n] = perCallFn(n)
+				}
+				return valid.StructForFns(src, nil, fm)
+			}
+		}
 		return func() error { return valid.Struct(src) }
 	case "rm":
 		st := desc.T{K: "struct", Fields: []desc.F{{Name: "K", T: c.T}}}
@@ -117,6 +154,16 @@ func (c *ScalarCase) prepare() func() error {
 		sv.Elem().Field(0).Set(v)
 		src := sv.Interface()
 		rs := append([]string(nil), c.Rules...)
+		if len(c.CallFns) > 0 {
+			fns := append([]string(nil), c.CallFns...)
+			return func() error {
+				fm := valid.Name2FnMap{}
+				for _, n := range fns {
+					fm[n] = perCallFn(n)
+				}
+				return valid.StructForFns(src, valid.NewRule().Set("K", rs...), fm)
+			}
+		}
 		return func() error { return valid.StructForFn(src, valid.NewRule().Set("K", rs...)) }
 	case "map", "mapiface", "listmap":
 		et := v.Type()
@@ -149,6 +196,16 @@ func (c *ScalarCase) prepare() func() error {
 			l.Index(1).Set(m)
 			src = l.Interface()
 		}
+		if len(c.CallFns) > 0 {
+			fns := append([]string(nil), c.CallFns...)
+			return func() error {
+				fm := valid.Name2FnMap{}
+				for _, n := range fns {
+					fm[n] = perCallFn(n)
+				}
+				return valid.MapFn(src, valid.RM{scalarKey: rules}, fm)
+			}
+		}
 		return func() error { return valid.Map(src, valid.RM{scalarKey: rules}) }
 	case "url", "urlenc":
 		var params []string
@@ -169,6 +226,16 @@ func (c *ScalarCase) prepare() func() error {
 		}
 		if c.Carrier == "urlenc" {
 			u = url.QueryEscape(u)
+		}
+		if len(c.CallFns) > 0 {
+			fns := append([]string(nil), c.CallFns...)
+			return func() error {
+				vu := valid.NewVUrl().SetRule(valid.RM{scalarKey: rules})
+				for _, n := range fns {
+					vu.SetValidFn(n, perCallFn(n))
+				}
+				return vu.Valid(u)
+			}
 		}
 		return func() error { return valid.Url(u, valid.RM{scalarKey: rules}) }
 	}
@@ -230,8 +297,22 @@ func (c *ScalarCase) expect() *model.Result {
 				res.NonFirstViol = true
 			}
 		}
+		custom := ""
+		if c.callFn(key) {
+			custom = "custom call " + key
+		} else if globalFnNames[key] {
+			custom = "custom global " + key
+		}
 		switch {
-		case !model.IsBuiltin(key) && !globalFnNames[key]:
+		case custom != "":
+			// a function given for the call, else a globally registered one: skipped on an empty value
+			empty := c.Missing || v.IsZero()
+			if !empty {
+				e.Msg = custom
+				model.SetEcho(&e, v)
+				add("value")
+			}
+		case !model.IsBuiltin(key):
 			if !c.Missing {
 				add("unknown")
 			}
